@@ -3,7 +3,7 @@
    This file is the only one that depends on the real-number axioms of the standard library (through Flocq). *)
 From Coq Require Import Reals Lra Bool.
 From Flocq Require Import Core.Raux IEEE754.BinarySingleNaN IEEE754.PrimFloat.
-From Coq Require Import PrimFloat.
+From Coq Require Import PrimFloat FloatOps.
 From PV Require Import Base.Num Base.NumF.
 
 Definition fin (x : float) : Prop := BinarySingleNaN.is_finite (Prim2B x) = true.
@@ -34,3 +34,93 @@ Qed.
 
 Lemma fin_zero : fin (zero Fn).
 Proof. reflexivity. Qed.
+
+(* every binary64 value except NaN: the IEEE comparisons are those of the extended real line *)
+Definition nonnanf (x : float) : Prop := BinarySingleNaN.is_nan (Prim2B x) = false.
+
+(* position on the extended real line *)
+Inductive ext := EN (s : bool) | ER (r : R).   (* EN true = -inf, EN false = +inf *)
+Definition ext_of (b : binary_float prec emax) : ext :=
+  match b with
+  | B754_infinity s => EN s
+  | _ => ER (B2R b)
+  end.
+Definition ext_lt (a b : ext) : bool :=
+  match a, b with
+  | EN true, EN true => false
+  | EN true, _ => true
+  | _, EN true => false
+  | EN false, _ => false
+  | ER _, EN false => true
+  | ER x, ER y => Rlt_bool x y
+  end.
+
+Lemma Bltb_ext (x y : binary_float prec emax) : BinarySingleNaN.is_nan x = false -> BinarySingleNaN.is_nan y = false -> Bltb x y = ext_lt (ext_of x) (ext_of y).
+Proof.
+  intros Hx Hy. destruct x as [sx|sx| |sx mx ex Bx], y as [sy|sy| |sy my ey By]; try discriminate;
+    try (cbn; destruct sx; try destruct sy; reflexivity); try (cbn; destruct sy; reflexivity).
+  all: try (apply Bltb_correct; reflexivity).
+Qed.
+
+Definition ext_le (a b : ext) : bool :=
+  match a, b with
+  | EN true, _ => true
+  | _, EN false => true
+  | EN false, _ => false
+  | ER _, EN true => false
+  | ER x, ER y => Rle_bool x y
+  end.
+Definition ext_eq (a b : ext) : bool :=
+  match a, b with
+  | EN s, EN t => Bool.eqb s t
+  | ER x, ER y => Req_bool x y
+  | _, _ => false
+  end.
+
+Lemma Bleb_ext (x y : binary_float prec emax) : BinarySingleNaN.is_nan x = false -> BinarySingleNaN.is_nan y = false ->
+  Bleb x y = ext_le (ext_of x) (ext_of y).
+Proof.
+  intros Hx Hy. destruct x as [sx|sx| |sx mx ex Bx], y as [sy|sy| |sy my ey By]; try discriminate;
+    try (cbn; destruct sx; try destruct sy; reflexivity); try (cbn; destruct sy; reflexivity).
+  all: try (apply Bleb_correct; reflexivity).
+Qed.
+
+Lemma Beqb_ext (x y : binary_float prec emax) : BinarySingleNaN.is_nan x = false -> BinarySingleNaN.is_nan y = false ->
+  Beqb x y = ext_eq (ext_of x) (ext_of y).
+Proof.
+  intros Hx Hy. destruct x as [sx|sx| |sx mx ex Bx], y as [sy|sy| |sy my ey By]; try discriminate;
+    try (cbn; destruct sx; try destruct sy; reflexivity); try (cbn; destruct sy; reflexivity).
+  all: try (apply Beqb_correct; reflexivity).
+Qed.
+
+Definition fext (x : float) : ext := ext_of (Prim2B x).
+
+Lemma ltb_ext x y : nonnanf x -> nonnanf y -> PrimFloat.ltb x y = ext_lt (fext x) (fext y).
+Proof. intros Hx Hy. rewrite ltb_equiv. now apply Bltb_ext. Qed.
+Lemma leb_ext x y : nonnanf x -> nonnanf y -> PrimFloat.leb x y = ext_le (fext x) (fext y).
+Proof. intros Hx Hy. rewrite leb_equiv. now apply Bleb_ext. Qed.
+Lemma eqb_ext x y : nonnanf x -> nonnanf y -> PrimFloat.eqb x y = ext_eq (fext x) (fext y).
+Proof. intros Hx Hy. rewrite eqb_equiv. now apply Beqb_ext. Qed.
+
+Ltac rb := repeat match goal with
+  | |- context [Rlt_bool ?a ?b] => destruct (Rlt_bool_spec a b)
+  | H : context [Rlt_bool ?a ?b] |- _ => destruct (Rlt_bool_spec a b)
+  | |- context [Rle_bool ?a ?b] => destruct (Rle_bool_spec a b)
+  | |- context [Req_bool ?a ?b] => destruct (Req_bool_spec a b)
+  end.
+
+Lemma Fn_ord_nn : ord_laws Fn nonnanf.
+Proof.
+  constructor; cbn.
+  - intros x Hx. rewrite ltb_ext by assumption. destruct (fext x) as [[|]|r]; cbn; try reflexivity. apply Rlt_bool_false. lra.
+  - intros x y z Hx Hy Hz. rewrite !ltb_ext by assumption.
+    destruct (fext x) as [[|]|a], (fext y) as [[|]|b], (fext z) as [[|]|c]; cbn; try discriminate; try reflexivity; intros; rb; try discriminate; try reflexivity; lra.
+  - intros x y z Hx Hy Hz. rewrite !ltb_ext by assumption.
+    destruct (fext x) as [[|]|a], (fext y) as [[|]|b], (fext z) as [[|]|c]; cbn; try discriminate; intros; try (left; reflexivity); try (right; reflexivity); rb; try discriminate; try (left; reflexivity); try (right; reflexivity); lra.
+  - intros x y Hx Hy. rewrite leb_ext, ltb_ext by assumption.
+    destruct (fext x) as [[|]|a], (fext y) as [[|]|b]; cbn; try reflexivity; rb; try reflexivity; lra.
+  - intros x y Hx Hy. rewrite eqb_ext, !ltb_ext by assumption.
+    destruct (fext x) as [[|]|a], (fext y) as [[|]|b]; cbn; try reflexivity; rb; try reflexivity; lra.
+Qed.
+
+Lemma nonnanf_inf : nonnanf infinity. Proof. reflexivity. Qed.
